@@ -39,7 +39,32 @@ class Drbg:
 
 def _monotonic():
     sim = _state['sim']
-    return sim.loop.time() if sim is not None else REAL_MONOTONIC()
+
+    if sim is None:
+        return REAL_MONOTONIC()
+
+    # fault: the process is not scheduled for a while between two
+    # instructions (a stall, a long GC pause): the n-th reading of the clock
+    # finds that much time gone.  The simulated clock itself moves, so
+    # timers that became due simply fire late.
+    stall = _state.get('stall')
+
+    if stall is not None:
+        stall[0] -= 1
+
+        if stall[0] == 0:
+            sim.loop._vtime += stall[1]
+            sim.stats['fault_stall_between_clock_reads'] += 1
+            _state['stall'] = None
+
+    return sim.loop.time()
+
+
+def set_stall(after_reads, seconds):
+    """Arm the stall fault: `seconds` pass right before clock reading number
+       `after_reads` (counted from now)"""
+
+    _state['stall'] = [after_reads, seconds] if after_reads else None
 
 
 def _time():
@@ -282,6 +307,7 @@ def enter(sim, seed_text):
     _state['sim'] = sim
     _state['drbg'] = Drbg('drbg:' + seed_text)
     _state['skew'] = 0.0
+    _state['stall'] = None
 
     # process-global state in asyncssh that would leak between runs
     from asyncssh import connection
